@@ -91,6 +91,7 @@ type DB struct {
 	commitSeq     uint64
 	DefaultSchema string
 	Clock         TS // logical clock, advanced by the harness
+	LoopLimit     int // iterations after which a PL/pgSQL LOOP is aborted with SQLSTATE 54000 (0: one million); a harness guard, not PostgreSQL behaviour
 	Sched         Scheduler
 	advisory      map[int64]*advLock
 	Log           func(sess int, sql string)
